@@ -29,6 +29,85 @@ ADDERS = {"append", "add", "appendleft"}
 EXTENDERS = {"extend", "update", "extendleft", "union"}
 
 
+# --------------------------------------------------------------------------- generators as collectors
+
+
+def _is_generator(fn: ast.AST) -> bool:
+    from core.loader import own_nodes
+
+    return any(isinstance(n, (ast.Yield, ast.YieldFrom)) for n in own_nodes(fn))
+
+
+def collector_of(repo: Repo, callee: FuncInfo) -> FuncInfo | None:
+    """A generator function rewritten as the function that returns the list of everything it yields (`yield x` ->
+    `yielded.append(x)`, `yield from xs` -> `yielded.extend(xs)`, `return` -> `return yielded`): the same elements under the same
+    conditions for every consumer that iterates the result, which is all the rules ask about.  None when a yield is used as
+    an expression (send protocol) or sits where a statement cannot be put."""
+    cache = repo.__dict__.setdefault("_c05_collectors", {})
+    if callee.fq in cache:
+        return cache[callee.fq]
+    from core.loader import set_parents
+
+    node = clone(callee.node)
+    name = "yielded"
+    used = {n.id for n in ast.walk(node) if isinstance(n, ast.Name)} | {a.arg for a in ast.walk(node) if isinstance(a, ast.arg)}
+    while name in used:
+        name += "_"
+    ok = True
+
+    def load() -> ast.Name:
+        return ast.Name(id=name, ctx=ast.Load())
+
+    class Rewrite(ast.NodeTransformer):
+        def visit_FunctionDef(self, n):  # noqa: N802
+            return n if n is not node else self.generic_visit(n)
+
+        visit_AsyncFunctionDef = visit_FunctionDef  # noqa: N815
+
+        def visit_Lambda(self, n):  # noqa: N802
+            return n
+
+        def visit_Expr(self, n: ast.Expr):  # noqa: N802
+            v = n.value
+            if isinstance(v, ast.Yield):
+                call = ast.Call(func=ast.Attribute(value=load(), attr="append", ctx=ast.Load()), args=[v.value if v.value is not None else ast.Constant(value=None)], keywords=[])
+                return ast.copy_location(ast.Expr(value=ast.copy_location(call, n)), n)
+            if isinstance(v, ast.YieldFrom):
+                call = ast.Call(func=ast.Attribute(value=load(), attr="extend", ctx=ast.Load()), args=[v.value], keywords=[])
+                return ast.copy_location(ast.Expr(value=ast.copy_location(call, n)), n)
+            return n
+
+        def visit_Return(self, n: ast.Return):  # noqa: N802
+            nonlocal ok
+            if n.value is not None and not (isinstance(n.value, ast.Constant) and n.value.value is None):
+                ok = False  # the StopIteration value of a generator
+            return ast.copy_location(ast.Return(value=load()), n)
+
+    Rewrite().visit(node)
+    if not ok or any(isinstance(n, (ast.Yield, ast.YieldFrom)) for n in ast.walk(node) if not isinstance(n, ast.Lambda)):
+        cache[callee.fq] = None
+        return None
+    init = ast.Assign(targets=[ast.Name(id=name, ctx=ast.Store())], value=ast.List(elts=[], ctx=ast.Load()))
+    first = node.body[0] if node.body else node
+    ast.copy_location(init, first)
+    ast.copy_location(init.targets[0], first)
+    ast.copy_location(init.value, first)
+    doc = 1 if node.body and isinstance(node.body[0], ast.Expr) and isinstance(node.body[0].value, ast.Constant) and isinstance(node.body[0].value.value, str) else 0
+    node.body.insert(doc, init)
+    last = node.body[-1]
+    if not isinstance(last, ast.Return):
+        ret = ast.Return(value=load())
+        ast.copy_location(ret, last)
+        ret.lineno = getattr(last, "end_lineno", getattr(last, "lineno", 1))
+        node.body.append(ret)
+    ast.fix_missing_locations(node)
+    set_parents(node)
+    out = FuncInfo(name=callee.name, qualname=callee.qualname, node=node, module=callee.module, cls=callee.cls, decorators=list(callee.decorators), outer=callee.outer)
+    out.collector_of = callee  # type: ignore[attr-defined]
+    cache[callee.fq] = out
+    return out
+
+
 # --------------------------------------------------------------------------- devirtualised views
 
 
@@ -42,6 +121,13 @@ class DevirtInliner(Inliner):
         self.recv_mro = {c.fq for c in repo.mro(recv)} if recv is not None else set()
 
     def _resolve(self, ctx: FuncInfo, call: ast.Call):  # noqa: D401
+        got = self._resolve_plain(ctx, call)
+        if got is not None and not isinstance(got.node, ast.Lambda) and _is_generator(got.node):
+            # a generator helper is inlined as the list of what it yields
+            return collector_of(self.repo, got) or got
+        return got
+
+    def _resolve_plain(self, ctx: FuncInfo, call: ast.Call):
         src = getattr(call, "_src", None)
         c_ctx, orig = src if src is not None else (ctx, call)
         if self.recv is not None and isinstance(orig, ast.Call) and isinstance(orig.func, ast.Attribute):
@@ -205,11 +291,18 @@ class DevirtInliner(Inliner):
         return super()._block(ctx, expanded, taken, origin, stack)
 
 
-def dview(repo: Repo, fi: FuncInfo, recv: ClassInfo | None = None, allow: Callable[[FuncInfo, FuncInfo], bool] | None = None, max_depth: int = 6, tag: str = "") -> FuncInfo:
+def dview(repo: Repo, fi: FuncInfo, recv: ClassInfo | None = None, allow: Callable[[FuncInfo, FuncInfo], bool] | None = None, max_depth: int = 6, tag: str = "", normalise: bool = False) -> FuncInfo:
+    """`normalise`: functional idioms (map / filter / chain / attrgetter / partial ...) are rewritten as comprehensions
+    (rules/c05_functional.py) before anything reads the view."""
     cache = repo.__dict__.setdefault("_c05_views", {})
-    key = (fi.fq, recv.fq if recv else None, tag, max_depth)
+    key = (fi.fq, recv.fq if recv else None, tag, max_depth, normalise)
     if key not in cache:
-        cache[key] = DevirtInliner(repo, types_of(repo), recv, allow, max_depth).view(fi)
+        v = DevirtInliner(repo, types_of(repo), recv, allow, max_depth).view(fi)
+        if normalise:
+            from .c05_functional import normalise_view
+
+            normalise_view(repo, v)
+        cache[key] = v
     return cache[key]
 
 
